@@ -51,7 +51,17 @@ def rust_attr(f):
     if f.get('order'):
         # the order of the arguments is free: range, access and stride in any order
         args = [args[i] for i in f['order'] if i < len(args)] + [a for i, a in enumerate(args) if i not in f['order']]
-    return '#[%s(%s)]' % (kw, ', '.join(args))
+    return '#[%s(%s%s)]' % (kw, ', '.join(args), ',' if f.get('trailing_comma') else '')
+
+
+FIELD_DOCS = ['/// documented field %s', '/// %s: hidden while the unit is disabled (r/w, stride = 4)', '#[doc = "field %s, bits(0..=3)"]',
+              '/// %s — set by hardware; see `with_` and `set_`', '/** block comment for %s */']
+
+
+def field_doc(f, tail=''):
+    """the wording of a doc comment is free (seeded change C19-m8 looked for the word `hidden` in it)"""
+    t = FIELD_DOCS[sum(ord(c) for c in f['name']) % len(FIELD_DOCS)] % (f['name'].replace('r#', '') + tail)
+    return t
 
 
 def base_name(w):
@@ -78,6 +88,10 @@ def rust_bitfield(d):
                 args.append('default%s%s' % (sep, df['name']))
     if d.get('debug'):
         args.append('debug')
+    if d.get('args_rev') and len(args) == 3:
+        args = [args[0], args[2], args[1]]          # `debug` before `default`: the order after the base type is free
+    if d.get('args_trailing_comma'):
+        args[-1] += ','
     lines += pre
     if d.get('doc'):
         lines.append('/// documented type %s' % d['name'])
@@ -87,10 +101,10 @@ def rust_bitfield(d):
     lines.append('pub struct %s {' % d['name'])
     for f in d['fields']:
         if f.get('doc') and not f.get('doc_after'):
-            lines.append('    /// documented field %s' % f['name'])
+            lines.append('    %s' % field_doc(f))
         lines.append('    %s' % rust_attr(f))
         if f.get('doc') and f.get('doc_after'):
-            lines.append('    /// documented field %s (after its bit attribute)' % f['name'])
+            lines.append('    %s' % field_doc(f, ' (after its bit attribute)'))
         lines.append('    %s: %s,' % (f['name'], rust_field_ty(f)))
     lines.append('}')
     if d.get('module'):
@@ -109,6 +123,8 @@ def rust_enum(d):
         args.append('exhaustive%s%s' % (sep, d['exh']))
     if d.get('doc'):
         lines.append('/// documented enum %s' % d['name'])
+    if d.get('args_rev') and len(args) == 2:
+        args = [args[1], args[0]]               # `bitenum(exhaustive = true, u2)`: the order is free
     lines.append('#[bitbybit::bitenum(%s)]' % ', '.join(args))
     lines.append('#[derive(Debug, PartialEq, Eq)]')
     if d.get('repr'):
